@@ -1495,6 +1495,17 @@ func streamMsgParts(c *ctx) {
 			bad.m = [][2]*citem{{{kind: 0, n: 1<<31 - 1}, {kind: 0, n: 1}}, {{kind: 1, n: 1<<31 - 1}, {kind: 3, b: []byte("ok")}}}
 		}
 		hdec(bad.enc(nil), "labels")
+		// an empty map followed by anything (another item, a stray break, the encoded map itself, garbage), and the other
+		// encodings of an empty map: one complete item and nothing else is a header bucket
+		for _, tail := range [][]byte{{0x00}, {0xa0}, {0xff}, {0xa1, 0x01, 0x05}, {0xf6}, c.r.bytes(1 + c.r.intn(3))} {
+			hdec(append([]byte{0xa0}, tail...), "empty-map-then-more")
+		}
+		if herr == nil && len(hb) > 0 {
+			hdec(append([]byte{0xa0}, hb...), "empty-map-then-map")
+		}
+		for _, e := range [][]byte{{0xa0}, {0xb8, 0x00}, {0xb9, 0x00, 0x00}, {0xbf, 0xff}, {0xbf}, {0xd9, 0xd9, 0xf7, 0xa0}} {
+			hdec(e, "empty-map-forms")
+		}
 		// labels that are integer-like but neither a CBOR integer nor text: bignums, tagged integers, floats with an
 		// integral value, simple values; alone, next to integer labels, and inside a nested header value
 		{
